@@ -136,7 +136,10 @@ static int saveArgs(MPT_INTERFACE(metatype) *top, int argc, char * const argv[])
 			return MPT_ERROR(BadOperation);
 		}
 	}
-	a._buf->_content_traits = mpt_type_traits('c');
+	/* no remaining arguments: no buffer was created */
+	if (a._buf) {
+		a._buf->_content_traits = mpt_type_traits('c');
+	}
 	b = mpt_meta_buffer(&a);
 	mpt_array_clone(&a, 0);
 	
